@@ -504,8 +504,22 @@ def finish(ctx, level, coverage, assumptions):
     with open(os.path.join(ctx.evid_dir, ctx.pid + ".json"), "w") as f:
         json.dump(ev, f, indent=1, default=str)
     rc = 1 if new else 0
+    if rc == 0:
+        _prune_work(ctx)
     ctx.log("done: %s (violations=%d known=%d) wall=%.0fs" % ("FAIL" if rc else "ok", len(shown), len(seen_known), time.time() - ctx.t0))
     return rc
+
+
+def _prune_work(ctx):
+    """Disk space is limited: after a clean run drop the bulky intermediate traces (kept on a violation for replay)."""
+    try:
+        for root, _, files in os.walk(ctx.work):
+            for fn in files:
+                fp = os.path.join(root, fn)
+                if fn.endswith((".ndjson", ".json", ".out", ".log", ".test", ".bin")) and os.path.getsize(fp) > (2 << 20):
+                    os.remove(fp)
+    except OSError:
+        pass
 
 
 def fail_inconclusive(ctx, level, msg):
